@@ -35,6 +35,15 @@ Proof.
   split; [exact R2|]. rewrite F2, F1. cbn. rewrite andb_true_r. reflexivity.
 Qed.
 
+Lemma convert_error_full (score sigma : b64) :
+  (snd (convert (score, sigma)) = fmul (fmul sigma score) c001 /\ fst (convert (score, sigma)) = score) /\
+  (let rnd := round radix2 (SpecFloat.fexp 53 1024) (round_mode mode_NE) in
+   Rlt_bool (Rabs (rnd (B2R sigma * B2R score))) (bpow radix2 1024) = true ->
+   Rlt_bool (Rabs (rnd (rnd (B2R sigma * B2R score) * B2R c001))) (bpow radix2 1024) = true ->
+   B2R (snd (convert (score, sigma))) = rnd (rnd (B2R sigma * B2R score) * B2R c001)
+   /\ is_finite (snd (convert (score, sigma))) = is_finite sigma && is_finite score).
+Proof. split; [apply convert_error_expr | apply convert_error_real]. Qed.
+
 Local Close Scope R_scope.
 
 (* special values: not-a-number in, not-a-number out; a zero score with a
